@@ -181,6 +181,50 @@ def handle_downlink_macs(c, res):
                 okd = False
         res.require(okd, 'C08:handle_downlink_macs:%s-value' % field, 'configuration.%s candidates are not {commanded value under its validity test, current value}: %s' % (field, detail),
                     short_site(bf, bb, si), 'PROVENANCE(%s)' % field, instance='configuration.%s <- commanded %s() validated by %s, or kept' % (field, getter.split('::')[-1], validity))
+    # FRESH-READ: the "current" value a request keeps (data rate / TX power 0xF) is the one in force when that request is handled - a read of
+    # configuration.<field> whose value is still used after the handler stored to the field must be repeatable after the store (it lies
+    # inside the command loop). A snapshot taken before the loop goes stale once an earlier LinkADRReq block of the same downlink is
+    # applied: a later block that "keeps" would write the old value back although both answers report success.
+    for field in ('data_rate', 'tx_power'):
+        st = stores(field)
+        if len(st) != 1:
+            continue
+        sbb = st[0][0]
+        for b_ in body.blocks:
+            if b_.cleanup:
+                continue
+            for s_ in b_.stmts:
+                if not (s_.k == 'assign' and s_.rv.k == 'use' and s_.rv.ops[0].place is not None and not s_.lhs.proj):
+                    continue
+                pl = s_.rv.ops[0].place
+                fnames = pl.field_names()
+                if pl.local != conf or fnames != [field]:
+                    continue
+                # locals that carry this value on (copies, tuples, projections of those)
+                derived = {s_.lhs.local}
+                changed = True
+                while changed:
+                    changed = False
+                    for b2 in body.blocks:
+                        if b2.cleanup:
+                            continue
+                        for s2 in b2.stmts:
+                            if s2.k == 'assign' and not s2.lhs.proj and s2.lhs.local not in derived and s2.rv.k in ('use', 'agg') and \
+                                    any(o.place is not None and o.place.local in derived for o in s2.rv.ops):
+                                derived.add(s2.lhs.local)
+                                changed = True
+                use_bbs = set()
+                for b2 in body.blocks:
+                    if b2.cleanup:
+                        continue
+                    ops = [o for s2 in b2.stmts if s2.k == 'assign' for o in s2.rv.ops] + (list(b2.term.args) if b2.term.k == 'call' else []) + ([b2.term.discr] if b2.term.k == 'switch' else [])
+                    if any(o is not None and o.place is not None and o.place.local in derived for o in ops):
+                        use_bbs.add(b2.idx)
+                stale = [u for u in use_bbs if bf.cfg.can_reach(sbb, u)] if not bf.cfg.can_reach(sbb, b_.idx) else []
+                res.require(not stale, 'C08:handle_downlink_macs:%s:stale-current-value' % field,
+                            'configuration.%s is read once before the command loop and that value is still used after a request has stored a new one: a later LinkADRReq that keeps the %s (0xF) writes the old value back, '
+                            'undoing a request answered with full acceptance' % (field, field.replace('_', ' ')), short_site(bf, b_.idx), 'FRESH-READ(value in force when the request is handled)',
+                            instance='handle_downlink_macs: configuration.%s read where it is used (repeatable after the store)' % field)
     # channel_mask_set receives the trial copy that was validated
     for bb, t in bf.calls_to('Configuration::channel_mask_set'):
         a = term_of_operand(bf, t.args[1])
